@@ -29,16 +29,25 @@ pub trait AsRefSeq<A: Alphabet, C: PositiveLength>: Sized {
     spec fn seq_view(&self) -> StripedSequence<A, C>;
     fn as_ref(&self) -> (r: &StripedSequence<A, C>) ensures *r == self.seq_view();
 }
-impl<'a, A: Alphabet, C: PositiveLength> AsRefSeq<A, C> for &'a StripedSequence<A, C> {
-    open spec fn seq_view(&self) -> StripedSequence<A, C> { **self }
-    fn as_ref(&self) -> (r: &StripedSequence<A, C>) { *self }
+// mirrors `impl AsRef<StripedSequence<A, C>> for StripedSequence<A, C>` (seq.rs) and std's blanket `impl AsRef<U> for &T`
+impl<A: Alphabet, C: PositiveLength> AsRefSeq<A, C> for StripedSequence<A, C> {
+    open spec fn seq_view(&self) -> StripedSequence<A, C> { *self }
+    fn as_ref(&self) -> (r: &StripedSequence<A, C>) { self }
+}
+impl<'a, A: Alphabet, C: PositiveLength, S: AsRefSeq<A, C>> AsRefSeq<A, C> for &'a S {
+    open spec fn seq_view(&self) -> StripedSequence<A, C> { (**self).seq_view() }
+    fn as_ref(&self) -> (r: &StripedSequence<A, C>) { (**self).as_ref() }
 }
 pub trait AsRefMat<T: MatrixElement, K: Unsigned>: Sized {
     spec fn mat_view(&self) -> DenseMatrix<T, K>;
     fn as_ref(&self) -> (r: &DenseMatrix<T, K>) ensures *r == self.mat_view();
 }
-impl<'a, T: MatrixElement, K: Unsigned> AsRefMat<T, K> for &'a DenseMatrix<T, K> {
-    open spec fn mat_view(&self) -> DenseMatrix<T, K> { **self }
-    fn as_ref(&self) -> (r: &DenseMatrix<T, K>) { *self }
+impl<T: MatrixElement, K: Unsigned> AsRefMat<T, K> for DenseMatrix<T, K> {
+    open spec fn mat_view(&self) -> DenseMatrix<T, K> { *self }
+    fn as_ref(&self) -> (r: &DenseMatrix<T, K>) { self }
+}
+impl<'a, T: MatrixElement, K: Unsigned, M: AsRefMat<T, K>> AsRefMat<T, K> for &'a M {
+    open spec fn mat_view(&self) -> DenseMatrix<T, K> { (**self).mat_view() }
+    fn as_ref(&self) -> (r: &DenseMatrix<T, K>) { (**self).as_ref() }
 }
 } // verus!
